@@ -319,10 +319,10 @@ func (ex *Exec) finishPath(st *State, spec *HarnessSpec) {
 			ex.violations = append(ex.violations, &Violation{Harness: spec.Name, Msg: st.detail, Inputs: vals, Kinds: kinds,
 				Kind: "panic", Notes: st.notes, Choices: st.choices})
 		}
-	case "blocked":
+	case "blocked", "diverged":
 		if spec.BlockedIsBug {
 			vals, kinds := inputsOf(st, st.model)
-			ex.violations = append(ex.violations, &Violation{Harness: spec.Name, Msg: "blocked: " + st.detail, Inputs: vals, Kinds: kinds,
+			ex.violations = append(ex.violations, &Violation{Harness: spec.Name, Msg: st.status + ": " + st.detail, Inputs: vals, Kinds: kinds,
 				Kind: "blocked", Notes: st.notes, Choices: st.choices})
 		}
 	default:
